@@ -108,6 +108,33 @@ STRUCTURED = [
 ]
 
 
+def gen_prefix_fork(idx, k, arms, ret_in_arm):
+    """k unconditional defers, then an `arms`-way fork where every arm pushes one more defer (optionally returning
+    inside the arm), then a join with a final return: exercises value-semantics of the abstract stacks (slices that
+    share a backing array would overwrite each other for some prefix lengths)."""
+    L = ["func f%d(c func() bool) {" % idx, "\ttick()"]
+    d = 0
+    for _ in range(k):
+        L.append("\tdefer noop(reg(%d, %d))" % (idx, d))
+        d += 1
+    e = 0
+    L.append("\tswitch {")
+    for a in range(arms):
+        L.append("\tcase c():" if a < arms - 1 else "\tdefault:")
+        L.append("\t\tdefer noop(reg(%d, %d))" % (idx, d))
+        d += 1
+        if ret_in_arm and a == 0:
+            L.append("\t\tex(%d, %d)" % (idx, e))
+            L.append("\t\treturn")
+            e += 1
+    L.append("\t}")
+    L.append("\tdefer noop(reg(%d, %d))" % (idx, d))
+    L.append("\tex(%d, %d)" % (idx, e))
+    L.append("\treturn")
+    L.append("}")
+    return L
+
+
 PRELUDE = """package main
 
 import (
@@ -161,9 +188,15 @@ def gen_program(seed, nfun, maxblocks=6, maxdefers=3):
     names = []
     for i in range(nfun):
         nb = 1 + rnd(maxblocks)
-        nd = rnd(maxdefers + 1)
+        nd = rnd(maxdefers + 1) if rnd(4) else 4 + rnd(5)
         src.append("\n".join(gen_function(rnd, i, nb, nd)))
         names.append("f%d" % i)
+    # systematic family: prefix length 0..10 x {2,3} arms x return-in-arm (one per program, rotating with the seed)
+    for k in range(0, 11):
+        for arms in (2, 3):
+            i = len(names)
+            src.append("\n".join(gen_prefix_fork(i, k, arms, (k + arms + seed) % 2 == 0)))
+            names.append("f%d" % i)
     for j, t in enumerate(STRUCTURED):
         n = 1000 + j
         src.append((t.replace("s%d_0", "g%d" % n)) % tuple([n] * (t.count("%d") - 1)) if False else
